@@ -140,7 +140,86 @@ func TestGovcReplayServer(t *testing.T) {
 		}
 		passive := govcBool(mv["*s.config.Passive"])
 		govcCheckQuery(t, passive, msg)
+	case strings.HasSuffix(m.Function, ").setReturnNodes"):
+		govcScenarioTarget(t)
+	case strings.HasSuffix(m.Function, ").setReturnNodes$2"):
+		govcScenarioNodes6(t)
 	default:
 		t.Skip("GOVC-REPLAY-SKIP: no replay for " + m.Function)
+	}
+}
+
+func govcServerWithID(t *testing.T, id krpc.ID) (*Server, *govcConn) {
+	conn := newGovcConn()
+	cfg := NewDefaultServerConfig()
+	cfg.Conn = conn
+	cfg.NodeId = id
+	cfg.StartingNodes = func() ([]Addr, error) { return nil, nil }
+	cfg.SendLimiter = rate.NewLimiter(rate.Inf, 10)
+	s, err := NewServer(cfg)
+	if err != nil {
+		t.Fatal(err)
+	}
+	t.Cleanup(s.Close)
+	return s, conn
+}
+
+func govcAddGoodNode(t *testing.T, s *Server, id krpc.ID, ua *net.UDPAddr) {
+	s.mu.Lock()
+	defer s.mu.Unlock()
+	n := &node{nodeKey: nodeKey{Id: id.Int160(), Addr: NewAddr(ua)}, lastGotResponse: time.Now(), lastGotQuery: time.Now()}
+	if err := s.table.addNode(n); err != nil {
+		t.Fatal(err)
+	}
+}
+
+func govcAsk(t *testing.T, s *Server, conn *govcConn, src *net.UDPAddr, m krpc.Msg) krpc.Msg {
+	func() {
+		s.mu.Lock()
+		defer s.mu.Unlock()
+		s.handleQuery(NewAddr(src), m)
+	}()
+	time.Sleep(150 * time.Millisecond)
+	ws := conn.snapshot()
+	if len(ws) != 1 {
+		t.Fatalf("expected one reply, got %d", len(ws))
+	}
+	var out krpc.Msg
+	if err := bencode.Unmarshal(ws[0].b, &out); err != nil || out.R == nil {
+		t.Fatalf("reply does not decode as a response: %v", err)
+	}
+	return out
+}
+
+// C09: contacts are chosen relative to the target the query names. The responder's ID starts with bit 1, so the all-zero
+// infohash falls into bucket 0; the only good contact sits in bucket 5, which is also the bucket of the find_node target.
+func govcScenarioTarget(t *testing.T) {
+	var root, nid krpc.ID
+	root[0] = 0x80
+	nid[0] = 0x84 // shares the first five bits with root
+	s, conn := govcServerWithID(t, root)
+	govcAddGoodNode(t, s, nid, &net.UDPAddr{IP: net.IPv4(198, 51, 100, 1), Port: 6881})
+	q := krpc.Msg{Q: "find_node", T: "tt", Y: "q", A: &krpc.MsgArgs{Target: nid}}
+	q.A.ID[0] = 0x11
+	out := govcAsk(t, s, conn, &net.UDPAddr{IP: net.IPv4(203, 0, 113, 7), Port: 6881}, q)
+	if len(out.R.Nodes) != 1 || out.R.Nodes[0].ID != nid {
+		t.Fatalf("find_node for target %x: the good contact in the target's own bucket was not returned (nodes=%v): contacts were not chosen relative to the target", nid[:2], out.R.Nodes)
+	}
+}
+
+// C09: nodes6 holds only IPv6 contacts. The table holds one good IPv4 contact; an IPv6 requester asks.
+func govcScenarioNodes6(t *testing.T) {
+	var root, nid krpc.ID
+	root[0] = 0x80
+	nid[0] = 0x84
+	s, conn := govcServerWithID(t, root)
+	govcAddGoodNode(t, s, nid, &net.UDPAddr{IP: net.IPv4(198, 51, 100, 1), Port: 6881})
+	q := krpc.Msg{Q: "get_peers", T: "tt", Y: "q", A: &krpc.MsgArgs{InfoHash: nid}}
+	q.A.ID[0] = 0x11
+	out := govcAsk(t, s, conn, &net.UDPAddr{IP: net.ParseIP("2001:db8::7"), Port: 6881}, q)
+	for _, ni := range out.R.Nodes6 {
+		if ni.Addr.IP.To4() != nil {
+			t.Fatalf("nodes6 contains the IPv4 contact %v (as a 38-byte v4-mapped entry)", ni.Addr)
+		}
 	}
 }
